@@ -405,16 +405,49 @@ def runs(cur, ch, n):
     return [i for i in range(len(cur) - n + 1) if cur[i:i + n] == ch * n]
 
 
-def gen_spec(rng, max_width=4, max_depth=8, exotic=0.06, max_regs=7):
+def multi_measure_prefix(rng):
+    """Three prepared qubits, ONE multi-qubit Measure(n) box, then a consumer of the list of bit
+    registers that tells its entries apart: a Swap(bit, bit) that is not the swap of the only two
+    bits, or an overriding Measure onto one of the measured bits (to_tk keeps one register index
+    per measured wire, tk.py:191-199: their order inside one Measure(n) matters only to these)."""
+    bits = tuple(rng.choice([0, 1]) for _ in range(3))
+    layers = [(("ket", bits), 0)]
+    for _ in range(rng.randint(0, 2)):
+        if rng.random() < 0.5:
+            layers.append((("gate", rng.choice(["H", "X", "H"])), rng.randrange(3)))
+        else:
+            layers.append((("gate", "CX"), rng.randrange(2)))
+    variant = rng.choice(["m3swap", "m3swap", "m2m1swap", "m2override"])
+    if variant == "m3swap":
+        layers += [(("measure", 3, 1, 0), 0), (("swap", "b", "b"), rng.randrange(2))]
+        return layers, "bbb", 3, 3
+    if variant == "m2m1swap":
+        off = rng.randrange(2)
+        layers.append((("measure", 2, 1, 0), off))          # bbq / qbb
+        layers.append((("measure", 1, 1, 0), 2 if off == 0 else 0))
+        layers.append((("swap", "b", "b"), 1 if off == 0 else 0))
+        return layers, "bbb", 3, 3
+    destructive = rng.choice([0, 1])
+    layers += [(("measure", 2, 1, 0), 0), (("swap", "b", "q"), 1), (("measure", 1, destructive, 1), 1)]
+    return layers, "bb" if destructive else "bqb", 3, 2
+
+
+def gen_spec(rng, max_width=4, max_depth=8, exotic=0.06, max_regs=7, multi=0.08):
     """A random circuit spec: preparations, post-selections, measurements, discards, swaps,
     gates, scalars and classical gates at arbitrary depths; 0-4 wires at every depth.
     `exotic` = share of boxes outside the exportable set (Bits with a 1, Ry, CU1, CRx,
-    Controlled(T), daggered S/T)."""
-    dom = rng.choice(["", "", "", "q", "q", "qq", "b", "qb", "bq", "qqq"])
-    cur, layers = dom, []
-    n_q = dom.count("q")
-    n_b = dom.count("b")
-    depth = rng.randint(1, max_depth)
+    Controlled(T), daggered S/T); `multi` = share of circuits that start with
+    `multi_measure_prefix` (and go on at random for up to three more layers)."""
+    if rng.random() < multi:
+        dom = ""
+        layers, cur, n_q, n_b = multi_measure_prefix(rng)
+        depth = rng.randint(0, 3)
+    else:
+        dom = rng.choice(["", "", "", "q", "q", "qq", "b", "qb", "bq", "qqq"])
+        cur, layers = dom, []
+        n_q = dom.count("q")
+        n_b = dom.count("b")
+        depth = rng.randint(1, max_depth)
     for _ in range(depth):
         opts = []
         room = max_width - len(cur)
